@@ -17,6 +17,7 @@ mod c15;
 mod c16;
 mod c17;
 mod c18;
+mod c20;
 
 use rng::Rng;
 use std::io::Write;
@@ -41,6 +42,7 @@ fn prop(id: &str) -> Prop {
         "C14" => Prop { gen: c14::gen, run: c14::run },
         "C15" => Prop { gen: c15::gen, run: c15::run },
         "C16" => Prop { gen: c16::gen, run: c16::run },
+        "C20" => Prop { gen: c20::gen, run: c20::run },
         "C13" => Prop { gen: c13::gen, run: c13::run },
         _ => { eprintln!("unknown property {}", id); std::process::exit(2) }
     }
